@@ -217,7 +217,15 @@ class SymBytes:
         return sym.Not(self.__eq__(o))
 
     def __hash__(self):
-        raise Unsupported("hash of symbolic bytes")
+        # equal byte strings have equal length, so hashing by length is consistent with ==;
+        # dict/set lookups then decide equality through __eq__ (which forks).  A container
+        # that mixes real bytes and SymBytes keys is out of reach (their hashes differ).
+        if self.tail is not None:
+            raise Unsupported("hash of symbolic-length bytes")
+        c = self.concrete()
+        if c is not None:
+            return hash(c)
+        return hash(("SymBytes", len(self.items)))
 
     def __repr__(self):
         return "SymBytes(%r%s)" % (self.items, ", +tail" if self.tail is not None else "")
